@@ -353,13 +353,17 @@ def install(w):
         st.heap["$dmap"] = z3.Store(dm, did, z3.Store(dm[did], key.t, val.t))
         isn = z3.And(V.is_r(val.t), w.classes.isa(CLS(V.rid(val.t)), E))
         par = st.arr("parent")
-        st.heap["parent"] = z3.If(isn, z3.Store(par, V.rid(val.t), recv.t), par)
+        # a list value: every node in it gets `parent = self` (sqlglot's _set_parent); over-approximated by an arbitrary new
+        # parent map (callers that set a list must allow `*.parent` to change)
+        is_lst = z3.And(V.is_r(val.t), w.classes.isa(CLS(V.rid(val.t)), list))
+        st.heap["parent"] = z3.If(isn, z3.Store(par, V.rid(val.t), recv.t), z3.If(is_lst, ex.fresh("H_parent", par.sort()), par))
         # key order bookkeeping is not tracked for args dicts
         return Val(NONE, NoneType)
 
     H["sqlglot.expressions.Expression.set"] = m_set
 
     COPY_SRC = z3.Function("sg_copy_of", I, I)
+    COPY_CHILD = z3.Function("sg_copy_child", I, V, I)
 
     def m_copy(ex, st, args, kw, node):
         """deep copy: fresh node of the same class, parent None, args dict fresh; non-node arg values are the same
@@ -381,23 +385,33 @@ def install(w):
         ex.bump_alloc(st)
         k = z3.Const(fresh_name("ck"), V)
         old_has, old_map = st.arr("$dhas"), st.arr("$dmap")
-        new_has = ex.fresh("H_$dhas", old_has.sort())
-        new_map = ex.fresh("H_$dmap", old_map.sort())
-        o = z3.Int(fresh_name("co"))
-        st.assume(z3.ForAll([o], z3.Implies(o < pre_alloc, z3.And(new_has[o] == old_has[o], new_map[o] == old_map[o]))))
-        st.assume(new_has[did] == old_has[d0id])
         ov = old_map[d0id][k]
-        nv = new_map[did][k]
         is_node = z3.And(V.is_r(ov), w.classes.isa(CLS(V.rid(ov)), E))
         is_list = z3.And(V.is_r(ov), w.classes.isa(CLS(V.rid(ov)), list))
+        # the copy's args dict, key by key: scalars are the same values; node / list values are fresh copies named by
+        # COPY_CHILD(copy, key) (their own contents are whatever the heap holds at those fresh ids: unconstrained)
+        child = V.r(COPY_CHILD(nid, k))
+        lam = z3.Lambda([k], z3.If(z3.Or(is_node, is_list), child, ov))
+        new_has = z3.Store(old_has, did, old_has[d0id])
+        new_map = z3.Store(old_map, did, lam)
+        kk = z3.Const(fresh_name("ck"), V)
+        args_after = st.arr("args")
+        ovk = old_map[d0id][kk]
+        cid_ = COPY_CHILD(nid, kk)
         st.assume(
             z3.ForAll(
-                [k],
-                z3.If(
-                    is_node,
-                    z3.And(V.is_r(nv), CLS(V.rid(nv)) == CLS(V.rid(ov)), V.rid(nv) >= pre_alloc, COPY_SRC(V.rid(nv)) == V.rid(ov)),
-                    z3.If(is_list, z3.And(V.is_r(nv), w.classes.isa(CLS(V.rid(nv)), list), V.rid(nv) >= pre_alloc), nv == ov),
+                [kk],
+                z3.And(
+                    cid_ >= pre_alloc,
+                    z3.Implies(
+                        z3.And(V.is_r(ovk), w.classes.isa(CLS(V.rid(ovk)), E)),
+                        # a copied child is a node of the same class with an args dict of its own (deep copy)
+                        z3.And(CLS(cid_) == CLS(V.rid(ovk)), COPY_SRC(cid_) == V.rid(ovk), V.is_r(args_after[cid_]), V.rid(args_after[cid_]) >= pre_alloc,
+                               CLS(V.rid(args_after[cid_])) == w.classes.cid(dict)),
+                    ),
+                    z3.Implies(z3.And(V.is_r(ovk), w.classes.isa(CLS(V.rid(ovk)), list)), w.classes.isa(CLS(cid_), list)),
                 ),
+                patterns=[COPY_CHILD(nid, kk)],
             )
         )
         st.heap["$dhas"], st.heap["$dmap"] = new_has, new_map
@@ -598,6 +612,10 @@ def install(w):
     @sf("find_ident_dfs")
     def _find_ident_dfs(ex, st, args):
         return find_like("find", ex, st, args[0], [exp.Identifier], False)
+
+    @sf("find_ident")
+    def _find_ident(ex, st, args):
+        return find_like("find", ex, st, args[0], [exp.Identifier], True)
 
     @sf("find_table")
     def _find_table(ex, st, args):
